@@ -67,6 +67,87 @@ func init() {
 	}
 }
 
+var storeComponents = map[string]interface{}{
+	"real":   []string{"every line of plenc's decoders (Unmarshal of every codec, Skip, Descriptor.Read + JSONOutput) built from /repo's working tree with -tags verif", "one long-lived instance per configuration shared by damaged and healthy traffic"},
+	"owned":  []string{"the record store between writer and readers: which bytes a reader is handed (fault model), the buffer they sit in (exact capacity / stale tail of the previous record / FF tail)", "step counter at every decode loop (verif yield hook) with a budget that turns an endless loop into a violation", "allocation meter (runtime/metrics screening, runtime.MemStats exact re-measurement and 1-in-16 sampling)", "process containment: worker address-space limit, parent watchdog with isolated confirmation"},
+	"absent": []string{"scheduler (single caller), clock, network, disk"},
+}
+
+func init() {
+	propDefs["C04"] = &PropDef{
+		ID: "C04", Level: "fault_enumeration",
+		Store: storeWorker,
+		Parts: func(tier string, seed uint64) []part {
+			if tier == "quick" {
+				return []part{{Name: "store", Count: int(envInt("VERIF_C04_RECORDS", 4800))}, {Name: "short", Count: int(envInt("VERIF_C04_SHORT", 192))}, {Name: "history", Count: 4}}
+			}
+			return []part{{Name: "store", Count: int(envInt("VERIF_C04_RECORDS", 60000))}, {Name: "short", Count: int(envInt("VERIF_C04_SHORT", 400))}, {Name: "history", Count: 8}}
+		},
+		Rule: "evaluations = decodes. For every generated valid record (type x configuration from the world's families, canonical encoding) the store applies EVERY single fault of each class - truncation at every byte, every single-bit flip, every byte forced to 00/7F/80/FF, maximal varint and zero block inserted at / written over every offset, 1-4 byte blocks dropped and duplicated at every offset, prefix-of-A + suffix-of-B splices - and hands each damaged record to every reader (Unmarshal into the writer's type, into version siblings and unrelated types, Descriptor-driven JSON) under three presentations (exact capacity, spare capacity holding the previous record, spare capacity holding FF); plus unrelated short blocks (all strings of length <= 1, every 7th (quick) or every (thorough) 2-byte string, 3-4 bytes over a boundary alphabet) per reader type. distinct_nontrivial = distinct (damaged input, reader, mode) triples, each of which differs from the undamaged record by construction. Complete over the single-fault classes for the records generated; the records themselves are sampled",
+		Assumptions: []string{
+			"allocation is screened with runtime/metrics (large allocations are counted at once, small ones with span-granularity lag), every suspect and one decode in 16 is measured exactly with runtime.MemStats; allowance = 64 KiB + K_T per input byte with K_T = 64 + 16 x the largest slice element / map entry / pointee size reachable in the reader's type",
+			"a decode that exceeds 64 + 16 x len(input) steps at the instrumented loops is a hang; loops without a hook are covered by the parent's watchdog with confirmation in an isolated process",
+			"inputs are damaged valid records and short blocks, not arbitrary long byte strings or coverage-guided inputs (that part of the quantifier is outside this technique)",
+		},
+		Components: storeComponents,
+	}
+}
+
+func schedParts(id string, sweep func(uint64, bool) []props.SweepJob, qRuns, qRace, tRuns, tRace int) func(string, uint64) []part {
+	return func(tier string, seed uint64) []part {
+		var ps []part
+		if sweep != nil {
+			ps = append(ps, part{Name: "sweep", Count: len(sweep(seed, tier == "quick"))})
+		}
+		runs, race := qRuns, qRace
+		if tier != "quick" {
+			runs, race = tRuns, tRace
+		}
+		ps = append(ps, part{Name: "random", Count: int(envInt("VERIF_"+id+"_RUNS", int64(runs)))})
+		ps = append(ps, part{Name: "race", Count: int(envInt("VERIF_"+id+"_RACE_RUNS", int64(race))), Base: 1000000, Race: true})
+		return ps
+	}
+}
+
+func init() {
+	propDefs["C19"] = &PropDef{
+		ID: "C19", Level: "exploration",
+		Gen:           props.GenC19,
+		SweepJobs:     props.C19SweepJobs,
+		SweepScenario: props.SweepScenario,
+		Parts:         schedParts("C19", props.C19SweepJobs, 60000, 10000, 2000000, 300000),
+		Rule: "runs = scenarios in which 1-6 simulated caller goroutines decode streams of records of types with interned string fields (several tables per struct, null.String, interned fields inside slice elements and map values) from re-used ring buffers that are overwritten between calls; strings come from a per-run vocabulary built to collide (new, repeated, empty, one byte, shared prefixes, binary, invalid UTF-8). Every decode is compared with the solo decode and with the non-interned twin type's decode of the same bytes, every encoding with the twin's, every held string is re-checked against an independent copy after each scribble and at the end. Sweep part: one preemption at every yield of the first of two decodes that insert the same / different new strings. Non-trivial = at least 2 tasks in flight and at least one hand-off inside an operation; distinct = distinct interleaving ids",
+		Assumptions: []string{
+			"preemption only at the instrumented sites (intern.miss, before Lock, intern.locked, intern.publish and the decode loops); the -race part covers unordered accesses to the table elsewhere",
+			"pointer identity and whether a string was actually interned are deliberately not checked: losing an insert to a concurrent one is transparent",
+			"the twin types are structurally identical except for the intern option",
+		},
+		Components: schedComponents,
+	}
+	propDefs["C11"] = &PropDef{
+		ID: "C11", Level: "exploration",
+		Gen:   props.GenC11,
+		Parts: schedParts("C11", nil, 60000, 8000, 2000000, 200000),
+		Rule: "runs = scenarios in the message-pump shape: 1-3 simulated caller goroutines copy records into re-used ring buffers (old bytes left beyond the record), decode them, keep the decoded values together with independent expected copies, append Marshal output to an output log, and - as injected faults at scheduler-chosen instants - overwrite the ring buffers (00 / FF / increment / random), overwrite the byte slices of a marshalled value and overwrite returned bytes. After every such event all live decoded values are re-compared; input bytes, the prefix of the output log (in its original backing array) and the marshalled value are compared with snapshots. Non-trivial runs / distinct as for C07",
+		Assumptions: []string{
+			"aliasing is observed through content: a decoded string that aliases the input changes when the buffer is overwritten with a different pattern; patterns that happen to write identical bytes cannot expose it (four different patterns are used)",
+			"expected copies come from the solo decode, deep-copied by the harness into fresh memory",
+		},
+		Components: schedComponents,
+	}
+	propDefs["C10"] = &PropDef{
+		ID: "C10", Level: "exploration",
+		Gen:   props.GenC10,
+		Parts: schedParts("C10", nil, 60000, 6000, 2000000, 150000),
+		Rule: "runs = histories on one long-lived instance: 1-3 simulated caller goroutines, 4-8 operations each: decode into a fresh target, decode into a re-used target (previously holding longer / shorter / differently populated values, so capacity is re-used with stale elements beyond len), decode a torn record (aborted operation), Marshal; sync.Pool policy of the map key scratch owned by the simulator (recycled-dirty 70% / fresh / dropped). Oracles: fresh decodes equal the solo decode on a brand-new instance (history independence); a re-used target equals an exactly-sized deep copy of its prior value after decoding the same bytes (physical twin); slices present in the data hold exactly the encoded elements; on the merge family the executable merge rules of the statement. Non-trivial / distinct as for C07, plus single-task histories count as non-trivial when a target or pooled scratch was re-used",
+		Assumptions: []string{
+			"where the statement is silent (struct-valued map entries under an existing key) no expectation is encoded: the merge model is only applied to types whose map values are scalars, strings or pointers to scalars, and only when the fresh round trip of the value is the identity",
+			"a target that received a failed decode is dropped from value checks; the instance, pool and tables stay checked",
+		},
+		Components: schedComponents,
+	}
+}
+
 // Evidence is the evidence file.
 type Evidence struct {
 	PropertyID  string                 `json:"property_id"`
